@@ -272,6 +272,11 @@ func (rw *rewriter) expr(e ast.Expr) ast.Expr {
 			rw.changed = true
 			return vcall("Now")
 		}
+		if rw.pkgFunc(x, "time", "Until") {
+			rw.counts["until"]++
+			rw.changed = true
+			return vcall("Until", x.Args...)
+		}
 		if rw.pkgFunc(x, "time", "Since") {
 			rw.counts["since"]++
 			rw.changed = true
